@@ -58,7 +58,8 @@ def doInterp (l : Line) : Option String := do
           if x.all (·.length = (x.headD []).length) then some (nearestArray axes v x) else none
       | "mesh" => some (nearestMesh axes v x)
       | _ => none
-    if r.any (· = "err:index") then some "err:index"
+    if conv == "mesh" && !meshInputOk (x.map (·.length)) then some "err:mesh-input"
+    else if r.any (· = "err:index") then some "err:index"
     else some s!"ok r={showList id r}"
   | "peraxis" =>
     let vals := (← l.crats? "v").toArray
@@ -75,12 +76,33 @@ def doInterp (l : Line) : Option String := do
           if x.all (·.length = (x.headD []).length) then some (perAxisArray axes v x) else none
       | "mesh" => some (perAxisMesh axes v x)
       | _ => none
-    some s!"ok r={showCList r}"
+    if conv == "mesh" && !meshInputOk (x.map (·.length)) then some "err:mesh-input"
+    else some s!"ok r={showCList r}"
   | _ => none
+
+def parseVKind : String → Option VKind
+  | "float64" => some .float64
+  | "float32" => some .float32
+  | "complex128" => some .complex128
+  | "complex64" => some .complex64
+  | "int" => some .int
+  | "strNarrow" => some .strNarrow
+  | "strWide" => some .strWide
+  | "object" => some .object
+  | _ => none
+
+/-- `cast vk=<class>` answers `ok safe=0|1 outcome=ok|err:type`. -/
+def doCast (l : Line) : Option String := do
+  let vk ← (← l.get? "vk") |> parseVKind
+  let o := match findIndicesOutcome vk with
+    | .ok => "ok"
+    | .typeError => "err:type"
+  some s!"ok safe={if castSafe vk then 1 else 0} outcome={o}"
 
 def handle (l : Line) : Option String :=
   match l.op with
   | "interp" => doInterp l
+  | "cast" => doCast l
   | _ => none
 
 def main : IO Unit := driverLoop handle
